@@ -62,7 +62,6 @@ def tasks(tier, seed):
             ts.append(dict(name=f'mixed_L2_s{site}_r_D3', kind='mixed', L=2, site=site, d=2, Dmax=3, DW=2, cplx=False, cut=4))
         ts.append(dict(name='scalars_L2_r_D3', kind='scalars', L=2, d=2, Dmax=3, DW=3, cplx=False, cut=3))
         ts.append(dict(name='scalars_L2_r_d3', kind='scalars', L=2, d=3, Dmax=2, DW=2, cplx=False, cut=3))
-        ts.append(dict(name='scalars_L4_r', kind='scalars', L=4, d=2, Dmax=2, DW=2, cplx=False, cut=3))
         for site in range(4):
             ts.append(dict(name=f'local1_L4_s{site}_r', kind='local1', L=4, site=site, d=2, Dmax=2, DW=2, cplx=False, cut=3))
         for site in range(3):
